@@ -40,6 +40,8 @@ class remove_carriage_return_after_token(structure.Rule):
             lTokens = oToi.get_tokens()
             for iToken, oToken in enumerate(lTokens[: len(lTokens)]):
                 if iToken < 3:
+                    if isinstance(oToken, parser.comment):
+                        break
                     if isinstance(oToken, parser.carriage_return):
                         oViolation = violation.New(oToi.get_line_number(), oToi, self.solution)
                         self.add_violation(oViolation)
@@ -48,7 +50,10 @@ class remove_carriage_return_after_token(structure.Rule):
     def _fix_violation(self, oViolation):
         lTokens = oViolation.get_tokens()
 
-        lTokens = utils.remove_carriage_returns_from_token_list(lTokens)
+        iComment = rules_utils.get_index_of_token_in_list(parser.comment, lTokens)
+        if iComment is None:
+            iComment = len(lTokens)
+        lTokens = utils.remove_carriage_returns_from_token_list(lTokens[:iComment]) + lTokens[iComment:]
         lTokens = utils.remove_consecutive_whitespace_tokens(lTokens)
         if self.bInsertSpace:
             if not isinstance(lTokens[1], parser.whitespace):
